@@ -150,28 +150,40 @@ def playback(copy, harness, target_dir=None, timeout=1200):
     return m.group(1) if m else None
 
 
-def native(copy, tests, timeout=1800, release=False):
+def native(copy, tests, timeout=3000):
     """Bounded native enumerations (labelled bounded stand-ins): copy /verif/native/<t>.rs into main/tests and run.
-    Each test prints `NB-RESULT name=<n> status=ok|fail cases=<N> key=<k> detail=<text>`."""
-    env = dict(os.environ)
-    env['CARGO_NET_OFFLINE'] = 'true'
+    tests: (file, testname, bound-text, tier[, env-dict]).  Each test prints
+    `NB-RESULT name=<n> status=ok|fail|undecided cases=<N> key=<k> detail=<text>`.  A test with an env dict is
+    run in --release (deeper bound)."""
     tdir = os.path.join(copy, 'main', 'tests')
     os.makedirs(tdir, exist_ok=True)
     out_all = {}
-    files = sorted(set(t[0] for t in tests))
-    for f in files:
+    for f in sorted(set(t[0] for t in tests)):
         shutil.copy(os.path.join(VERIF, 'native', f + '.rs'), os.path.join(tdir, 'verif_' + f + '.rs'))
     t0 = time.time()
-    for f in files:
-        cmd = ['cargo', 'test', '--offline', '-p', 'pest_typed', '--test', 'verif_' + f] + (['--release'] if release else []) + ['--', '--nocapture', '--test-threads', '8']
+    groups = {}
+    for t in tests:
+        envd = t[4] if len(t) > 4 else {}
+        groups.setdefault((t[0], tuple(sorted(envd.items()))), []).append(t)
+    for (f, envt), ts in groups.items():
+        env = dict(os.environ)
+        env['CARGO_NET_OFFLINE'] = 'true'
+        env.update(dict(envt))
+        cmd = ['cargo', 'test', '--offline', '-p', 'pest_typed', '--test', 'verif_' + f] + (['--release'] if envt else []) + ['--']
+        cmd += [t[1] for t in ts] + ['--exact', '--nocapture', '--test-threads', '8']
         try:
             p = subprocess.run(cmd, cwd=copy, env=env, capture_output=True, text=True, timeout=timeout)
             out = p.stdout + '\n' + p.stderr
         except subprocess.TimeoutExpired:
             out = 'TIMEOUT'
-        for m in re.finditer(r'NB-RESULT name=(\S+) status=(\S+) cases=(\d+) key=(.*?) detail=(.*)', out):
-            out_all[m.group(1)] = {'status': m.group(2), 'cases': int(m.group(3)), 'key': m.group(4).strip(), 'detail': m.group(5).strip(), 'cmd': ' '.join(cmd)}
-        for t in tests:
-            if t[0] == f and t[1] not in out_all:
-                out_all[t[1]] = {'status': 'undecided', 'cases': 0, 'key': '-', 'detail': 'no NB-RESULT line; tail: ' + out[-1500:], 'cmd': ' '.join(cmd)}
+        shown = ' '.join('%s=%s' % kv for kv in envt) + (' ' if envt else '') + ' '.join(cmd)
+        for m in re.finditer(r'NB-RESULT name=(\S+) status=(\S+) cases=(\d+) key=(.*?)(?: detail=(.*))?$', out, re.M):
+            key = m.group(4).strip()
+            det = (m.group(5) or '').strip()
+            if m.group(5) is None and ' detail=' in key:
+                key, det = key.split(' detail=', 1)
+            out_all[m.group(1)] = {'status': m.group(2), 'cases': int(m.group(3)), 'key': key, 'detail': det, 'cmd': shown}
+        for t in ts:
+            if t[1] not in out_all:
+                out_all[t[1]] = {'status': 'undecided', 'cases': 0, 'key': '-', 'detail': 'no NB-RESULT line; tail: ' + out[-1500:], 'cmd': shown}
     return out_all, time.time() - t0
